@@ -359,6 +359,14 @@ func (s *Server) serve(id int, conn net.Conn) {
 			}
 			s.mu.Unlock()
 			for i, ch := range argv[1:] {
+				if i > 0 && s.coin(s.PushProb) {
+					// unrelated data pushes may arrive BETWEEN the confirmations of one multi-channel subscribe
+					if s.coin(0.5) {
+						s.send(cs, func(m string) string { return ">3\r\n" + bulk("message") + bulk("noise") + bulk("y"+m) }, "data", false, false, "")
+					} else {
+						s.send(cs, func(m string) string { return ">2\r\n" + bulk("invalidate") + "*1\r\n" + bulk("noise"+m) }, "data", false, false, "")
+					}
+				}
 				s.send(cs, fixed(">3\r\n"+bulk(strings.ToLower(name))+bulk(ch)+fmt.Sprintf(":%d\r\n", i+1)), "sub", false, false, ch)
 			}
 			continue
